@@ -9,6 +9,9 @@ CHECKS = {
  "C10": dict(level="exploration", design="5/C10", technique="deterministic simulation: seeded state-aware operation histories through the std and tokio shims of the real turmoil-fs on 1-2 hosts, virtual time advanced between ops, syncs inserted anywhere; oracle = inode-based POSIX reference tree compared after every op (return value + full sweep) plus the sync-free metamorphic twin",
    text="Seeded exploration of operation histories (no fault by definition of the property; the adversary is the history, the sync placement and the passage of time). Each op's return and a full sweep of every path are compared with the reference tree, so a divergence is caught at the op that causes it.",
    note="Trusted: the reference model (fskit/model.rs). Error kinds compared for NotFound/AlreadyExists/DirectoryNotEmpty, otherwise only Ok-vs-Err. Known findings C10-K1..K4 (handles and pending ops are keyed by path) are excluded from 95% of the histories by generator guards and matched by predicate in the rest; seven defects were repaired (fixed entries in known_findings.json)."),
+ "C05": dict(level="exploration", design="5/C05", technique="deterministic simulation with fault injection: seeded turmoil::Sim runs (real per-host paused tokio runtimes) with timer programs on several tasks per host, late registration, crash/bounce injected at seeded steps with seeded downtime; oracle = reference clock checked after every step and on every host observation",
+   text="Seeded exploration over ticks, timer patterns, registration instants and crash/bounce placements; every observation of every host is checked against the reference clock (step window, elapsed/sim_elapsed/since_epoch consistency, monotonicity, exact timer instants).",
+   note="Trusted: the reference clock arithmetic in props/c05.rs. Timer durations are whole milliseconds (property text). Known finding C05-K1 (ticks that are not whole milliseconds) is exercised in 5% of the scenarios and matched by predicate (tick_us % 1000 != 0)."),
 }
 def main():
     hooks = subprocess.run(["git","-C","/repo","log","--format=%h","--grep=^chore(verif)"],capture_output=True,text=True).stdout.split()
